@@ -163,18 +163,34 @@ def has_dest_absent_fact(fs, tests):
     return False
 
 
+def has_dest_present_fact(fs, tests):
+    """the path assumes the destination (new property) is present already"""
+    for f in fs:
+        g, neg = unneg(f)
+        if not isinstance(g, tuple) or not g:
+            continue
+        if g[0] == "app" and any(g[1].endswith(t) for t in tests["present"]) and contains(g, NEWNAME) and not neg:
+            return True
+        if g[0] == "is" and contains(g[1], NEWNAME) and ((g[2].endswith("Entry::Occupied") and not neg) or (g[2].endswith("Entry::Vacant") and neg)):
+            return True
+    return False
+
+
 TESTS = {"present": ("InstanceBuilder::has_property", "::contains_key", "::contains")}
 
 
-def analyse_paths(paths, name_idx, value_idx, store_kinds):
+def analyse_paths(paths, name_idx, value_idx, store_kinds, loop_body=False):
     """per-site verdict dict from summarised paths"""
-    res = {"migrated_store": 0, "bad_name": [], "unguarded": 0, "legacy_store_on_ok": 0, "err": set(), "ok_paths": 0, "legacy_store_on_err": 0, "legacy_store_on_err_unguarded": 0}
+    res = {"migrated_store": 0, "bad_name": [], "unguarded": 0, "legacy_store_on_ok": 0, "err": set(), "ok_paths": 0, "legacy_store_on_err": 0, "legacy_store_on_err_unguarded": 0, "dropped_unmigrated": []}
     for fs, sinks, x, v in paths:
         st = perform_state(fs, sinks)
         stores = [(k, a) for k, a in sinks if k in store_kinds]
         if st == "ok" and any(has_try_perform(x) for k, a in stores for x in a) and not any(unneg(f)[0][0] == "is" and contains(unneg(f)[0], PERFORM) for f in fs if isinstance(unneg(f)[0], tuple) and unneg(f)[0]):
             res["err"].add("hard error (returns Err)")      # `perform(..)?`: the failure leaves through the error exit
         mig_stores = [(k, a) for k, a in stores if perform_terms(a[value_idx])]
+        if st is None and not stores and x not in ("err",) and not (loop_body and x == "return") and not (x == "return" and v is not None and not sym.is_var(v, sym.OK) and v != sym.UNIT) and not has_dest_present_fact(fs, TESTS):
+            # the legacy value is let go without an attempt to migrate it although nothing says the new property is there
+            res["dropped_unmigrated"].append([sym.term_str(f, 3) for f in fs][:4])
         if st == "ok":
             res["ok_paths"] += 1
             for k, a in mig_stores:
@@ -252,7 +268,7 @@ def site_xml_writer(prog):
         raise core.AnchorMissing(f"serialize_instance: expected one loop applying PropertyMigration::perform, found {len(loops)}")
     paths = summarise(loops[0][2])
     # sink args: (writer, state, name, value)
-    return fn, analyse_paths(paths, 2, 3, {"write_value"})
+    return fn, analyse_paths(paths, 2, 3, {"write_value"}, loop_body=True)
 
 
 def site_binary_writer(prog):
@@ -322,7 +338,7 @@ def site_xml_reader(prog):
             else:
                 ns.append((k, a))
         norm.append((fs, ns, x, v))
-    res = analyse_paths(norm, 1, 2, {"store"})
+    res = analyse_paths(norm, 1, 2, {"store"}, loop_body=True)
     res["err_paths"] = err_paths_need_absent(norm)
     return fn, res
 
